@@ -855,6 +855,46 @@ def termination_probe(ctx, rep, which):
 
 
 
+def linked_shards_probe(ctx, rep, mine):
+    """A deployment whose shard directories live on another disk and are linked back: after a delete has emptied them, a clean that
+    has something to collect (garbage of an interrupted snapshot) must still succeed and collect it."""
+    rng = random.Random(ctx.rng.randint(0, 2 ** 31))
+    wd = Path(ctx.scratch) / 'cli-linked'
+    shutil.rmtree(wd, ignore_errors=True)
+    wd.mkdir(parents=True)
+    sc = Scenario(rng.randint(0, 2 ** 31), wd, 'plain', 0)
+    sc.encrypted = False
+    try:
+        sc.setup()
+        u = sc.users[0]
+        args, files = sc.make_files(u, big=True)
+        sc.op_snapshot(u, args, files)
+        sc.rng = random.Random(1)
+        for _ in range(4):
+            sc.relocated = False
+            sc.op_relocate()                      # repeated: every shard ends up linked
+        name = next(iter(sc.snaps))
+        sc.op_delete(u, [name])
+        orphan = sc.dep.repo / 'data' / 'zz' / 'yy' / 'orphan-of-an-interrupted-snapshot'
+        orphan.parent.mkdir(parents=True)
+        orphan.write_bytes(b'garbage')
+        res = sc.dep.run('clean', user=u)
+        rep.case(('linked-shards', res.rc), nontrivial=True)
+        rep.count('linked_shards_probe')
+        if not res.ok and 'exception' in mine:
+            sc.v('exception', f'clean on a repository whose (emptied) shard directories are symbolic links exits with status {res.rc}: '
+                              f'{res.err.strip().splitlines()[-1][:160] if res.err.strip() else ""}', {'probe': 'linked_shards'})
+        elif orphan.exists() and 'gc_incomplete' in mine:
+            sc.v('gc_incomplete', 'clean left an unreferenced chunk in a repository whose shard directories are symbolic links', {'probe': 'linked_shards'})
+    except Scenario.Stop:
+        pass
+    for v in sc.viol:
+        v['replay'] = {'probe': 'linked_shards'}
+        if v['signature']['kind'] in mine:
+            rep.violations.append(v)
+    shutil.rmtree(wd, ignore_errors=True)
+
+
 def run_scenarios(ctx, rep, plan, mine, nops=9, encrypted=None):
     """plan: {kind: count}; kinds: 'plain', 'kill', 'oserror', 'corrupt'.  Violations whose kind is in `mine` are kept."""
     jobs = []
@@ -909,6 +949,9 @@ def replay_cli(ctx, obj, mine):
         viol = [v for v in replay_scenario(ctx, r) if v['signature']['kind'] in mine]
     elif r.get('probe') == 'termination':
         termination_probe(ctx, rep, {r.get('command', 'delete')})
+        viol = rep.violations
+    elif r.get('probe') == 'linked_shards':
+        linked_shards_probe(ctx, rep, mine)
         viol = rep.violations
     elif r.get('probe') == 'large':
         viol = large_object_corruption(Path(ctx.scratch) / 'large', random.Random(1))
